@@ -52,7 +52,9 @@ def tunnel_encaps(rng):
         if rng.random() < 0.4:
             v['15'] = rng.choice([0, 1, 255])
         if rng.random() < 0.5:
-            v['129'] = ''.join(rng.choice('abcXYZ-_09') for _ in range(rng.choice([0, 1, 30, 254, 255, 300])))
+            # names outside ASCII too (accented, CJK, emoji: 2-, 3-, 4-octet UTF-8): refused or encoded with the right length
+            alpha = rng.choice(['abcXYZ-_09', 'abcXYZ-_09', 'abc\u00e9\u00fc', 'ab\u4e2d\u6587', 'a\U0001f600b'])
+            v['129'] = ''.join(rng.choice(alpha) for _ in range(rng.choice([0, 1, 5, 30, 254, 255, 300])))
         if rng.random() < 0.4:
             six = rng.random() < 0.5
             v['6'] = {'asn': rng.choice(gen.ASN4), 'afi': 'ipv6' if six else 'ipv4', 'address': gen.ipv6(rng, 'doc') if six else gen.ipv4(rng)}
@@ -136,6 +138,52 @@ def long_flowspec_update(rng):
     return {'attr': {14: {'afi_safi': [1, 133], 'nexthop': '', 'nlri': [rule]}}}
 
 
+def nexthop_forms_update(rng):
+    """MP_REACH of every family with the next-hop forms a request can carry: IPv4, IPv6, IPv4-mapped IPv6, global + link-local,
+    RD-prefixed forms with either address family (RFC 4364 / 4659 / 8950)"""
+    fam = rng.choice(gen.FAMILIES)
+    v = gen.mp_value(rng, fam, nmax=3)
+    addr = rng.choice([gen.ipv4(rng, 'rand'), gen.ipv6(rng, 'doc'), gen.ipv6(rng, 'mapped'), gen.ipv6(rng, 'rand')])
+    if fam in ('vpnv4', 'vpnv6'):
+        v['nexthop'] = {'rd': rng.choice(['0:0', '65000:1']), 'str': addr}
+    elif fam == 'flowspec':
+        v['nexthop'] = rng.choice(['', addr])
+    else:
+        v['nexthop'] = addr
+        if ':' in addr and rng.random() < 0.3:
+            v['linklocal_nexthop'] = gen.ipv6(rng, 'll')
+    return {'attr': {1: 0, 2: [], 5: 100, 14: v}}
+
+
+def oversize_update(rng, asn4):
+    """attribute values across the 255-octet boundary (2-octet length form) and messages towards the 4096-octet limit"""
+    at = {1: 0, 2: [], 3: gen.ipv4(rng), 5: 100}
+    k = rng.choice([8, 10, 16, 32, 2, 'nlri', 'mp'])
+    n = rng.choice([64, 65, 100, 300, 1100])
+    m = {'attr': at, 'nlri': ['192.0.2.0/24']}
+    if k == 8:
+        at[8] = [gen.community_text(rng) for _ in range(n)]
+    elif k == 10:
+        at[10] = [gen.ipv4(rng) for _ in range(n)]
+    elif k == 16:
+        from checks import c06
+        at.update(c06.to_construct({16: [gen.ext_community(rng) for _ in range(min(n, 300))]}))
+    elif k == 32:
+        at[32] = [gen.large_community_text(rng) for _ in range(min(n, 300))]
+    elif k == 2:
+        at[2] = [[rng.choice([1, 2]), [rng.choice(gen.ASN4 if asn4 else gen.ASN2) for _ in range(rng.choice([255, 256, 300, 600]))]]]
+    elif k == 'nlri':
+        m['nlri'] = ['10.%d.%d.0/24' % (i // 256, i % 256) for i in range(rng.choice([600, 1020, 1021, 1200]))]
+        if rng.random() < 0.5:
+            m['withdraw'] = ['172.16.%d.0/24' % i for i in range(200)]
+    else:
+        fam = rng.choice(['ipv6', 'vpnv4', 'evpn', 'ipv4_lu'])
+        at.pop(3, None)
+        at[14] = gen.mp_value(rng, fam, nmax=rng.choice([40, 200, 400]))
+        m.pop('nlri')
+    return m
+
+
 def request_features(m):
     """input features used for known-findings matching"""
     f = set()
@@ -211,6 +259,13 @@ def run_shard(sh):
                 dict(msg=gen.norm(m), asn4=asn4))
         for rec in contracts.STATE['violations'][n0:]:
             if rec['contract'] == 'structure':
+                why = rec['why'].split('; ')
+                if fam == 'nexthop-forms':
+                    # which next-hop form suits which family is a matter of meaning, not of structure: only framing is judged here
+                    why = [x for x in why if '(allowed' not in x]
+                    if not why:
+                        continue
+                    rec = dict(rec, why='; '.join(why))
                 cls = sorted({problem_class(x) for x in rec['why'].split('; ')})
                 bad('malformed-message', ['family:' + fam] + ['where:' + c for c in cls[:2]] + request_features(rec['msg']), rec['why'][:500] + ' | request ' + json.dumps(rec['msg'])[:300] +
                     ' | hex ' + rec['hex'][:200], dict(msg=rec['msg'], asn4=asn4))
@@ -227,15 +282,19 @@ def run_shard(sh):
             fam = rng.choice(gen.FAMILIES)
             wd = rng.random() < 0.3
             do_update({'attr': {15 if wd else 14: gen.mp_value(rng, fam, withdraw=wd)}}, asn4, fam)
-        elif r < 0.65:
+        elif r < 0.60:
             do_update(srte_update(rng), asn4, 'sr-te-policy')
-        elif r < 0.75:
+        elif r < 0.68:
             do_update(pmsi_update(rng), asn4, 'pmsi')
-        elif r < 0.85:
+        elif r < 0.76:
             do_update(flowspec6_update(rng), asn4, 'ipv6-flowspec')
-        elif r < 0.9:
+        elif r < 0.82:
+            do_update(nexthop_forms_update(rng), asn4, 'nexthop-forms')
+        elif r < 0.88:
+            do_update(oversize_update(rng, asn4), asn4, 'oversize-values')
+        elif r < 0.92:
             do_update(vpn_multilabel_update(rng), asn4, 'vpn-label-stack')
-        elif r < 0.95:
+        elif r < 0.96:
             do_update(flowspec4_unsupported_update(rng), asn4, 'flowspec-unsupported-inputs')
         else:
             do_update(long_flowspec_update(rng), asn4, 'flowspec-long')
